@@ -154,6 +154,25 @@ example : typeOf exD exΓ (accessE (.var "v0") 1 "m1" none) = none := by decide 
 example : typeOf exD exΓ (accessE (.var "v0") 3 "m1" none) = none := by decide   -- one star too many
 example : exD.consistent = true := by decide
 
+/-- **C10.element_pointer_honoured** — the elements of an event collection declared through
+metadata are accessed with `->` on ATLAS and on a CMS collection declared with
+`element_pointer: True`, and with `.` on a CMS collection otherwise (key absent or `False`) —
+whatever the deref count `n` of the method adds on top. -/
+theorem element_pointer_honoured (x : String) (ep : Option Bool) :
+    accessText x (rootElemDepth .atlas ep + 0) = x ++ "->" ∧
+    accessText x (rootElemDepth .cmsAod (some true) + 0) = x ++ "->" ∧
+    accessText x (rootElemDepth .cmsMiniaod (some true) + 0) = x ++ "->" ∧
+    (ep ≠ some true → accessText x (rootElemDepth .cmsAod ep + 0) = x ++ "." ∧
+                      accessText x (rootElemDepth .cmsMiniaod ep + 0) = x ++ ".") := by
+  refine ⟨by simp [rootElemDepth, accessText, wrapN], by simp [rootElemDepth, accessText, wrapN],
+    by simp [rootElemDepth, accessText, wrapN], ?_⟩
+  intro h
+  cases ep with
+  | none => simp [rootElemDepth, accessText]
+  | some b => cases b with
+    | true => exact absurd rfl h
+    | false => simp [rootElemDepth, accessText]
+
 /-! ## 3. registry lookup -/
 
 /-- **C10.declared_type_used** — a declared method is typed with exactly what was declared
